@@ -9,6 +9,7 @@ mod c07;
 mod c08;
 mod c09;
 mod c10;
+mod c11;
 mod c12;
 mod c13;
 mod c14;
@@ -41,6 +42,7 @@ pub fn replay_dispatch(prop: &str, layer: &str, case: &serde_json::Value) -> Res
         "C08" => c08::replay(layer, case),
         "C09" => c09::replay(layer, case),
         "C10" => c10::replay(layer, case),
+        "C11" => c11::replay(layer, case),
         "C12" => c12::replay(layer, case),
         "C13" => c13::replay(layer, case),
         "C14" => c14::replay(layer, case),
@@ -148,6 +150,7 @@ fn main() {
         "C08" => c08::run(&mut run, &ctx),
         "C09" => c09::run(&mut run, &ctx),
         "C10" => c10::run(&mut run, &ctx),
+        "C11" => c11::run(&mut run, &ctx),
         "C12" => c12::run(&mut run, &ctx),
         "C13" => c13::run(&mut run, &ctx),
         "C14" => c14::run(&mut run, &ctx),
